@@ -138,6 +138,16 @@ def r1_census(ctx, M):
     total = 0
     fns = sorted(reach - excluded)
     parser = RP.find_parser(ctx)[2][0]
+    # a tag-list iterator that keeps (input, cursor) needs its object invariant cursor <= len(input): censused by the
+    # tokeniser rule under that invariant (below), like the multipart stream
+    from . import etaglist as EL
+    list_next_under_inv = None
+    try:
+        ladt, lnx, _, _ = EL.find_list(ctx)
+        if EL.cursor_field(ctx, ladt) is not None:
+            list_next_under_inv = lnx
+    except Exception:
+        pass
     covered_inline = set()
     ordered = [f for f in fns if ctx.facts.bodies[f]["kind"] != "closure"] + [f for f in fns if ctx.facts.bodies[f]["kind"] == "closure"]
     # pass 1: analyse every function once; remember which callees each analysis expanded in context
@@ -186,7 +196,7 @@ def r1_census(ctx, M):
         b = ctx.facts.bodies[fn]
         if b["kind"] == "promoted":
             continue
-        if fn == spn:
+        if fn == spn or fn == list_next_under_inv:
             continue  # analysed under its object invariant below
         if b["kind"] == "closure" and fn in expanded_in:
             continue  # its sites were visited in context (expanded at its unique call site by a combinator model)
@@ -208,6 +218,9 @@ def r1_census(ctx, M):
                               where=F.loc(s.span), detail={"paths": s.paths})
             else:
                 ctx.ok("C13.R1", key, detail={"paths": s.paths, "how": sorted(s.how)[:3]}, where=F.loc(s.span))
+    if list_next_under_inv is not None:
+        EL.tokeniser(ctx, "C13.R1.list")
+        EL.list_constructor(ctx, "C13.R1.list")
     # the multipart stream under its invariant (same rule as C20.R4)
     MP.constructor_inv(ctx, "C13.R1.mp")
     MP.stream_invariant(ctx, "C13.R1.mp")
